@@ -90,3 +90,19 @@ Example C20_trim_applies :
   trim (sp ++ Dsl.T "[1]" ++ sp) = Dsl.T "[1]" /\ starts_with_bracket (trim (sp ++ Dsl.T "[1]")) = true /\
   all_space sp /\ trim [] = [] /\ trim (sp ++ Dsl.T "a b" ++ sp) = Dsl.T "a b".
 Proof. cbv zeta. repeat split; vm_compute; reflexivity. Qed.
+
+(* the date argument of explain_matching: the strict shape is read, a well-shaped impossible date is refused, looser shapes are left to chrono *)
+Example C20_explain_date_shapes :
+  read_iso_date (Dsl.T "2024-06-01") = TOk {| dy := 2024; dm := 6; dd := 1 |} /\ read_iso_date (Dsl.T "2023-02-29") = TErr /\
+  read_iso_date (Dsl.T "2024-6-1") = TUnmodelled /\ explain_year {| dy := 2024; dm := 4; dd := 5 |} = 2023%Z /\ explain_year {| dy := 2024; dm := 4; dd := 6 |} = 2024%Z.
+Proof. repeat split; vm_compute; reflexivity. Qed.
+(* non-vacuity of the tool-layer theorems: with readers that accept, a calculator that lists one disposal and a lower-case ticker asked for,
+   explain_tool answers with that disposal; with an empty list calculate_tool refuses *)
+Example C20_tools_apply :
+  let pd := fun s : Dsl.text => Some (List.length s) in let pj := fun _ : Dsl.text => @None nat in
+  let calc := fun (n : nat) (y : option Z) => Some y in
+  let disp := fun (_ : option Z) => [({| dy := 2024; dm := 6; dd := 1 |}, Dsl.T "VOD")] in
+  explain_tool pd pj (fun n => Nat.eqb n 0) calc disp fst snd (Dsl.T " x ") (Dsl.T "2024-06-01") (Dsl.T "vod") = TOk ({| dy := 2024; dm := 6; dd := 1 |}, Dsl.T "VOD") /\
+  calculate_tool pd pj (fun n => Nat.eqb n 0) calc (Dsl.T "  ") None = TErr /\
+  explain_tool pd pj (fun n => Nat.eqb n 0) calc disp fst snd (Dsl.T "x") (Dsl.T "2024-06-01") (Dsl.T "BP") = TErr.
+Proof. cbv zeta. repeat split; vm_compute; reflexivity. Qed.
